@@ -211,7 +211,7 @@ class Generic:
         for content in contents:
             raw_kern += separator + content
             document, _ = create(raw_kern)
-            high_index = document.measures_count()
+            high_index = len(document.measure_start_tree_stages)  # 0 while no measure has started yet (e.g. a header-only fragment)
             indexes.append((low_index, high_index))
 
             low_index = high_index + 1  # Next fragment start is the previous fragment end + 1
